@@ -199,7 +199,7 @@ def main():
          [("(fun v => v * 3) (%d)" % a, (lambda a=a: deco(lambda v: v * 3)(a))) for a in (-4, -1, 0, 2, 9)])
     # things that must be refused
     refused = 0
-    for bad in ("def g(x):\n    def h(v):\n        y = v\n        return y\n    return h(x)\n",):
+    for bad in ("def g(x):\n    def h(v):\n        for i in v:\n            return i\n        return 0\n    return h(x)\n",):
         try:
             T(R()).function_node(F.ast.parse(bad).body[0], {"x": "x"})
         except F.Untranslatable:
